@@ -116,7 +116,12 @@ func BulkBody(index string, events []json.RawMessage) []byte {
 	var b bytes.Buffer
 	for _, e := range events {
 		fmt.Fprintf(&b, "{\"index\":{\"_index\":%q}}\n", index)
-		b.Write(bytes.TrimSpace(e))
+		var cb bytes.Buffer
+		if err := json.Compact(&cb, e); err == nil {
+			b.Write(cb.Bytes())
+		} else {
+			b.Write(bytes.ReplaceAll(bytes.TrimSpace(e), []byte("\n"), []byte(" ")))
+		}
 		b.WriteByte('\n')
 	}
 	return b.Bytes()
